@@ -15,7 +15,7 @@ import (
 func init() {
 	register(Property{
 		ID: "C14",
-		Explanation: "Decided statically: R1 cycle cover - every recursion cycle of the result resolver's call graph passes the guarded entry (resultsFromAstAt), whose recursive continuations are only created on the not-yet-visited edge of the visited test for (function type, result index); the one other cycle descends structurally (the expression list handed down is a literal of the range variable over the call's arguments); R2 mark-on-miss - every return of the visited helper that can answer 'not visited' is dominated by a store of the mark for (t, at); R3 index/bound pairing - in every counted loop of the library, an element accessor X.At(i)/Field(i)/Method(i)/Index(i) is applied to the same base whose Len/NumFields/... bounds the loop (simple getters and single-definition locals are looked through); R4 length summary - every return of Results is a list built by make(FuncResults, n) with a loop 0..n that makes every slot non-empty, or is returned under n == 0; R5 the resolver has no schedule-dependent order source, writes no shared state (the visited set is allocated per call) and the package's unused result cache stays unused. NOT decided: that each alternative is assignable to the declared result type, exactness for literal-only functions, and the absence of every other panic over all real functions (semantic precision over arbitrary programs).",
+		Explanation: "Decided statically: R1 cycle cover - every recursion cycle of the result resolver's call graph passes the guarded entry (resultsFromAstAt), whose recursive continuations are only created on the not-yet-visited edge of the visited test for (function type, result index); the one other cycle descends structurally (the expression list handed down is a literal of the range variable over the call's arguments); R2 mark-on-miss - every return of the visited helper that can answer 'not visited' is dominated by a store of the mark for (t, at); R3 index/bound pairing - in every counted loop of the library, an element accessor X.At(i)/Field(i)/Method(i)/Index(i) is applied to the same base whose Len/NumFields/... bounds the loop (simple getters and single-definition locals are looked through); R4 length summary - every return of Results is a list built by make(FuncResults, n) with a loop 0..n that makes every slot non-empty, or is returned under n == 0; R5 the resolver has no schedule-dependent order source, writes no shared state (the visited set is allocated per call) and the package's unused result cache stays unused. R6 index/bound pairing across calls - an accessor indexed by a parameter is followed to every static call site (receiver and parameters translated) until a counted loop over the same sequence bounds it; R7 in newPkg every declaration store into the signature table precedes every call-site store (or is unconditional), so a call seen before its callee's declaration cannot occupy the slot. NOT decided: that each alternative is assignable to the declared result type, exactness for literal-only functions, and the absence of every other panic over all real functions (semantic precision over arbitrary programs).",
 		Assumptions: append([]string{"go/ast invariant: FuncDecl.Type and FuncLit.Type are never nil"}, commonAssumptions...),
 		Run:         runC14,
 	})
@@ -46,6 +46,8 @@ func runC14(p *core.Program, r *core.Report) {
 	c14R3(p, r)
 	c14R4(p, r)
 	c14R5(p, r, fs)
+	c14R6(p, r)
+	c14R7(p, r)
 }
 
 func c14R1(p *core.Program, r *core.Report, fs []*core.Func) {
@@ -898,4 +900,298 @@ func perCallValue(f *core.Func, e ast.Expr, depth int) bool {
 		}
 	}
 	return true
+}
+
+// ---- R6: index/bound pairing across calls ----
+//
+// An element accessor B.At(i) / Field(i) / ... whose index is a parameter of the
+// enclosing function (not a loop variable, not guarded by i < B.Len()) is only
+// safe if every caller passes an index that is bounded by the length of the very
+// same sequence. The obligation follows the parameter to every static call site
+// (receiver and parameters of the callee are translated into the caller's
+// expressions) until it meets a counted loop; the loop's bound base must then be
+// the translated accessor base.
+
+var accessorNames = func() map[string]bool {
+	m := map[string]bool{}
+	for _, accs := range boundAccessors {
+		for _, a := range accs {
+			m[a] = true
+		}
+	}
+	return m
+}()
+
+// relCanon renders e relative to f: the receiver as <recv>, parameters as <param k>.
+func relCanon(p *core.Program, f *core.Func, e ast.Expr) string {
+	s := canonBase(p, f, e, 0)
+	root := f.Root()
+	info := f.Info()
+	if root.Decl != nil && root.Decl.Recv != nil && len(root.Decl.Recv.List) == 1 && len(root.Decl.Recv.List[0].Names) == 1 {
+		id := root.Decl.Recv.List[0].Names[0]
+		if o := info.ObjectOf(id); o != nil {
+			s = strings.ReplaceAll(s, fmt.Sprintf("%s#%d", id.Name, o.Pos()), "<recv>")
+		}
+	}
+	if root.Type != nil && root.Type.Params != nil {
+		k := 0
+		for _, fld := range root.Type.Params.List {
+			for _, id := range fld.Names {
+				if o := info.ObjectOf(id); o != nil {
+					s = strings.ReplaceAll(s, fmt.Sprintf("%s#%d", id.Name, o.Pos()), fmt.Sprintf("<param %d>", k))
+				}
+				k++
+			}
+			if len(fld.Names) == 0 {
+				k++
+			}
+		}
+	}
+	return s
+}
+
+// translate a callee-relative canon into the caller's terms at a call site.
+func translateCanon(p *core.Program, caller *core.Func, call *ast.CallExpr, rel string) string {
+	if strings.Contains(rel, "<recv>") {
+		rel = strings.ReplaceAll(rel, "<recv>", "\x00R")
+	}
+	for k, a := range call.Args {
+		tok := fmt.Sprintf("<param %d>", k)
+		if strings.Contains(rel, tok) {
+			rel = strings.ReplaceAll(rel, tok, relCanon(p, caller, a))
+		}
+	}
+	if strings.Contains(rel, "\x00R") {
+		rel = strings.ReplaceAll(rel, "\x00R", relCanon(p, caller, recvOf(call)))
+	}
+	return rel
+}
+
+// indexBoundedFor: in function f, is index expression idx (at node `at`) bounded by the length of relBase?
+func indexBoundedFor(p *core.Program, f *core.Func, at ast.Node, idx ast.Expr, relBase string, depth int) (bool, string) {
+	info := f.Info()
+	if depth > 4 {
+		return false, "call chain too deep"
+	}
+	if c, ok := core.ConstInt(info, idx); ok {
+		_ = c
+		return false, "constant index " + core.ExprStr(idx) + " is not bounded by a length test"
+	}
+	iv := core.VarOf(info, idx)
+	if iv == nil {
+		return false, "index `" + core.ExprStr(idx) + "` is not a variable"
+	}
+	lenOf := func(e ast.Expr) string {
+		c, ok := ast.Unparen(e).(*ast.CallExpr)
+		if !ok {
+			return ""
+		}
+		canon := relCanon(p, f, c)
+		i := strings.LastIndex(canon, ".")
+		if i <= 0 {
+			return ""
+		}
+		m := strings.TrimSuffix(canon[i+1:], "()")
+		if _, ok := boundAccessors[m]; !ok {
+			return ""
+		}
+		return canon[:i]
+	}
+	// enclosing counted loop over iv
+	path := core.PathTo(f.Root().Body, at)
+	for k := len(path) - 1; k >= 0; k-- {
+		fs, ok := path[k].(*ast.ForStmt)
+		if !ok || fs.Cond == nil {
+			continue
+		}
+		b, ok := ast.Unparen(fs.Cond).(*ast.BinaryExpr)
+		if ok && b.Op == token.LSS && core.VarOf(info, b.X) == iv {
+			if lb := lenOf(b.Y); lb != "" {
+				if lb == relBase {
+					return true, "loop bounded by the same sequence in " + f.Root().Name
+				}
+				return false, "the index comes from a loop in " + f.Root().Name + " bounded by the length of `" + core.ExprStr(b.Y) + "`, a different sequence"
+			}
+		}
+	}
+	// dominating guard iv < B.Len()
+	g := graph(f)
+	for _, fct := range g.FactsAt(g.PointOf(at)) {
+		bb, ok := ast.Unparen(fct.Cond).(*ast.BinaryExpr)
+		if ok && fct.Val && bb.Op == token.LSS && core.VarOf(info, bb.X) == iv && lenOf(bb.Y) == relBase {
+			return true, "guarded by " + core.ExprStr(fct.Cond)
+		}
+		if ok && !fct.Val && bb.Op == token.GEQ && core.VarOf(info, bb.X) == iv && lenOf(bb.Y) == relBase {
+			return true, "guarded by !(" + core.ExprStr(fct.Cond) + ")"
+		}
+	}
+	// a parameter: every static call site must pass a bounded index
+	root := f.Root()
+	if isParamOf(root, iv) && root.Obj() != nil {
+		k := paramIndex(root, iv)
+		sites := 0
+		for _, cs := range allCalls(p) {
+			if cs.In.Body == nil || core.CalleeFunc(cs.In.Info(), cs.Call) != root.Obj() || k >= len(cs.Call.Args) {
+				continue
+			}
+			sites++
+			tr := translateCanon(p, cs.In, cs.Call, relBase)
+			if ok, why := indexBoundedFor(p, cs.In, cs.Call, cs.Call.Args[k], tr, depth+1); !ok {
+				return false, "call `" + core.ExprStr(cs.Call) + "` in " + cs.In.QName() + ": " + why
+			}
+		}
+		if len(funcValueUses(p, root.Obj())) > 0 || sites == 0 {
+			return false, root.Name + " escapes as a value or has no static caller: its index parameter is unconstrained"
+		}
+		return true, fmt.Sprintf("all %d call site(s) of %s pass an index bounded by the same sequence", sites, root.Name)
+	}
+	return false, "index `" + core.ExprStr(idx) + "` is neither a bounded loop variable, guarded, nor a parameter"
+}
+
+func c14R6(p *core.Program, r *core.Report) {
+	const rule = "R6"
+	n := 0
+	for _, f := range p.Funcs() {
+		if core.RelPkg(f.Pkg.PkgPath) != "pkg/types" {
+			continue
+		}
+		info := f.Info()
+		ast.Inspect(f.Body, func(nd ast.Node) bool {
+			if lit, ok := nd.(*ast.FuncLit); ok && lit != f.Lit {
+				return false
+			}
+			c, ok := nd.(*ast.CallExpr)
+			if !ok || len(c.Args) != 1 {
+				return true
+			}
+			sel, ok := ast.Unparen(c.Fun).(*ast.SelectorExpr)
+			if !ok || !accessorNames[sel.Sel.Name] {
+				return true
+			}
+			// only go/types style accessors (a method with an int parameter on a value with a matching length method)
+			fn := core.CalleeFunc(info, c)
+			if fn == nil || fn.Pkg() == nil || (fn.Pkg().Path() != "go/types" && fn.Pkg().Path() != "reflect") {
+				return true
+			}
+			iv := core.VarOf(info, c.Args[0])
+			if iv == nil || !isParamOf(f.Root(), iv) {
+				return true // loop variables and locals are R3's business
+			}
+			n++
+			base := relCanon(p, f, sel.X)
+			ok2, why := indexBoundedFor(p, f, c, c.Args[0], base, 0)
+			r.Check(ok2, rule, f, core.ExprStr(c)+": the index parameter is bounded by the same sequence at every call site", c.Pos(), why,
+				"`"+core.ExprStr(c)+"` indexes `"+core.ExprStr(sel.X)+"` with a parameter that some caller does not bound by that sequence's length ("+why+"): the access panics (index out of range) when the caller's sequence is longer")
+			return true
+		})
+	}
+	if n == 0 {
+		r.OK(rule, nil, "no element accessor in pkg/types is indexed by an unguarded parameter", token.NoPos, "every X.At(i)/Field(i)/... takes a loop variable or guarded index (R3)")
+	}
+}
+
+// ---- R7: declarations win in the signature table ----
+//
+// The table signature -> syntax node is filled from declarations (FuncDecl /
+// FuncLit, which carry a body to scan) and from call sites (an identifier, used
+// only as a fallback for functions without a body in the package). A declaration
+// is stored only when the slot is free, so every declaration store has to happen
+// before any call-site store can run: a call seen before its callee's declaration
+// would otherwise occupy the slot and the declaration's returns are never scanned
+// (a literal-only function then answers with its declared type instead of its values).
+func c14R7(p *core.Program, r *core.Report) {
+	const rule = "R7"
+	r.Floor(rule, 2)
+	np := p.FuncByName("pkg/types", "newPkg")
+	if np == nil {
+		r.Anchor(rule, "pkg/types.newPkg")
+		return
+	}
+	info := np.Info()
+	g := graph(np)
+	type store struct {
+		f     *core.Func
+		as    *ast.AssignStmt
+		decl  bool
+		top   *core.Func // the literal directly nested in newPkg that contains the store (nil: newPkg itself)
+		guard bool       // stored only when the slot is free
+	}
+	var stores []store
+	for _, f := range p.Funcs() {
+		if f.Root() != np {
+			continue
+		}
+		fg := graph(f)
+		ast.Inspect(f.Body, func(nd ast.Node) bool {
+			if lit, ok := nd.(*ast.FuncLit); ok && lit != f.Lit {
+				return false
+			}
+			as, ok := nd.(*ast.AssignStmt)
+			if !ok || len(as.Lhs) != 1 || len(as.Rhs) != 1 {
+				return true
+			}
+			ix, ok := ast.Unparen(as.Lhs[0]).(*ast.IndexExpr)
+			if !ok {
+				return true
+			}
+			if fld := core.FieldOf(info, ix.X); fld == nil || fld.Name() != "signatures" {
+				return true
+			}
+			st := store{f: f, as: as}
+			switch core.NamedTypeName(info.TypeOf(as.Rhs[0])) {
+			case "go/ast.FuncDecl", "go/ast.FuncLit":
+				st.decl = true
+			}
+			for x := f; x != nil && x != np; x = x.Parent {
+				if x.Parent == np {
+					st.top = x
+				}
+			}
+			for _, fct := range fg.FactsAt(fg.PointOf(as)) {
+				v := core.VarOf(info, fct.Cond)
+				if v == nil || fct.Val {
+					continue
+				}
+				if d, isDef := core.SingleDef(info, f.Body, v); isDef && d.Index == 1 {
+					if dix, isIx := ast.Unparen(d.Rhs).(*ast.IndexExpr); isIx {
+						if fld := core.FieldOf(info, dix.X); fld != nil && fld.Name() == "signatures" {
+							st.guard = true
+						}
+					}
+				}
+			}
+			stores = append(stores, st)
+			return true
+		})
+	}
+	pointOf := func(st store) cfgxPoint {
+		if st.top == nil {
+			return g.PointOf(st.as)
+		}
+		return g.PointOf(st.top.Lit)
+	}
+	nd, nc := 0, 0
+	for _, d := range stores {
+		if !d.decl {
+			nc++
+			continue
+		}
+		nd++
+		why := ""
+		for _, c := range stores {
+			if c.decl || !d.guard {
+				continue
+			}
+			if c.top != nil && c.top == d.top {
+				why = "a call-site store (`" + core.ExprStr(c.as) + "`) runs in the same traversal as this declaration store"
+			} else if g.CanReach(pointOf(c), pointOf(d)) {
+				why = "a call-site store (`" + core.ExprStr(c.as) + "`) can run before this declaration store"
+			}
+		}
+		r.Check(why == "", rule, d.f, "declaration store "+core.ExprStr(d.as)+" cannot be pre-empted by a call-site entry", d.as.Pos(), "all declaration stores precede every call-site store (or are unconditional)",
+			why+", and the declaration is only stored when the slot is free: a function called above its declaration keeps the call-site identifier in the table, its body is never scanned and its results degrade to the declared types")
+	}
+	if nd == 0 || nc == 0 {
+		r.Anchor(rule, "declaration and call-site stores into the signature table in newPkg")
+	}
 }
